@@ -30,6 +30,12 @@ STRUCTURES = {
                   P2=(0.0803274660912237, -0.003934973683876981, 0.5547213521751705),
                   P3=(-0.023388367034398908, 0.010996207013328589, 0.3569739884446435)),
              [('P0', 'P1', 2), ('P2', 'P0', 4), ('P0', 'P3', 4)], False),
+    # a two-segment wire (segments 0.075 wavelength) between two four-segment wires (0.026 / 0.030): at the 49 degree
+    # junction P2 the inherited criterion for the exact-kernel branch is met off the axis (recorded finding of C06)
+    'unequal_junction': (dict(P0=(0.0, 0.0, 0.5), P1=(0.059906455746467385, -0.08404176910612778, 0.49057772395280164),
+                              P2=(-0.09717041858687177, -0.04235178172268832, 0.395132431640859),
+                              P3=(-0.02688002554159105, -0.10698345814279665, 0.46819385286542325)),
+                         [('P0', 'P1', 4), ('P2', 'P0', 2), ('P2', 'P3', 4)], False),
     'inv_l': (dict(G=(0, 0, 0), A=(0, 0, 0.16), B=(0.14, 0, 0.16)), [('G', 'A', 3), ('A', 'B', 3)], True),
     'sloping': (dict(G=(0, 0, 0), A=(0.08, 0, 0.14), B=(0.08, 0.12, 0.14)), [('G', 'A', 3), ('A', 'B', 2)], True),
     'two_grounded': (dict(G1=(0, 0, 0), A=(0.03, 0, 0.15), B=(0.17, 0.02, 0.15), G2=(0.2, 0.02, 0)),
